@@ -123,8 +123,9 @@ func TestCheck(t *testing.T) {
 	timed("e2e", func() bool { return endToEnd(t, r, deadline, workers, ties) })
 	timed("outbound", func() bool { return outbound(r, deadline, workers, ties) })
 	r.Set("phase_wall_s", phases)
-	for _, class := range []string{"out:signed-after-tie", "out:not-sent", "in:202", "in:401", "e2e:pushed", "e2e:not-pushed",
-		"min:boot:202", "min:boot:401", "min:reloaded:202", "min:reloaded:401", "mout:signed", "mout:not-sent"} {
+	// the runner keeps the first six
+	for _, class := range []string{"out:signed-after-tie", "min:boot:401", "min:reloaded:202", "mout:signed", "in:401", "e2e:not-pushed",
+		"out:not-sent", "in:202", "e2e:pushed", "min:boot:202", "min:reloaded:401", "mout:not-sent"} {
 		if v, ok := samples.val[class]; ok {
 			r.Sample(v)
 		}
